@@ -722,6 +722,12 @@ class DictRef:
         h = heap_of(interp)
         if attr == "get":
             def get(it, key, default=None):
+                if isinstance(key, OI) and default is key and self.t.vkind == "int":
+                    # mapping.get(a, a) for an optional atom a (placeholder None): no fork on the None-ness;
+                    # None is never a key, so the result is None exactly when a is
+                    hh = heap_of(it)
+                    kv = _int(key)
+                    return OI(key.isnone, z3.If(hh.d_has(self.t, self.ref, kv), hh.d_get(self.t, self.ref, kv), kv))
                 k = self.k(it, key)
                 if k is not None and self.t.vkind == "int" and it.state.get("generic_depth") and _is_atomish(default):
                     # inside a summarised comprehension nothing may fork on the generic element: if-then-else term
